@@ -36,6 +36,14 @@ impl FromSpecImpl<Redirection> for InputRedirection {
     open spec fn from_spec(r: Redirection) -> Self { InputRedirection::AsRedirection(r) }
 }
 //@include models/buildw_from.rs
+// ... its body, verified as a free-standing function under the precondition the callers' contracts establish (no Merge on an input)
+impl InputRedirection {
+//@fn exec::impl(From<Redirection>+for+InputRedirection)::from vis=pub rename=input_redirection_from ret=res
+//@rreplace 1 /panic!\("Redirection::Merge is only allowed for output streams"\);/ => /documented_panic();/
+    requires !(r is Merge),     // documented panic
+    ensures res == <InputRedirection as vstd::std_specs::convert::FromSpec<Redirection>>::from_spec(r), //[C16]
+//@end
+}
 impl FromSpecImpl<File> for InputRedirection {
     open spec fn obeys_from_spec() -> bool { true }
     open spec fn from_spec(f: File) -> Self { InputRedirection::AsRedirection(Redirection::File(f)) }
